@@ -177,6 +177,16 @@ class Setup:
         self._fc = None
         self.cases_run = 0
 
+    @property
+    def fscale(self):
+        """frequencies scale with the calculator's unit-conversion factor (the numbers of the force
+        constants are the same for every calculator)"""
+        return self.units["factor"] / get_default_physical_units(None)["factor"]
+
+    @property
+    def fcut(self):
+        return "%.4f" % (float(self.cfg["fcut"]) * self.fscale)
+
     def cell(self):
         return PhonopyAtoms(symbols=self.symbols, cell=self.lattice, scaled_positions=self.scaled)
 
@@ -1281,7 +1291,7 @@ def workflow_cases(su, full):
         add("dos-sigma", cmd, base + ["--mesh"] + M + ["--dos", "--sigma", "0.3", "--fpitch", "0.5"])
         add("pdos", cmd, base + ["--mesh"] + M + ["--pdos", "1, 2"])
         add("pdos-xyz", cmd, base + ["--mesh"] + M + ["--pdos", "1, 2", "--xyz-projection"])
-        fcut = su.cfg["fcut"]
+        fcut = su.fcut
         add("tprop-over-pdos", cmd, base + ["--mesh"] + M + ["--pdos", "1, 2", "-t", "--tmax", "200", "--tstep", "100",
                                                              "--cutoff-freq", fcut])
         add("tprop-classical-bi", cmd, base + ["--mesh"] + M + ["-t", "--tmax", "200", "--tstep", "100", "--classical",
@@ -1395,9 +1405,9 @@ def modifier_cases(su, add, L):
        A: even mesh + GAMMA_CENTER + frequency window / cutoff,
        B: odd mesh + MP_SHIFT + MESH_SYMMETRY = .FALSE. (configuration file, consumer as option),
        C: even mesh, plain;   the command alternates."""
-    fcut = su.cfg["fcut"]
+    fcut = su.fcut
     T = ["--tmax", "200", "--tstep", "100"]
-    win = ["--fmin", "1", "--fmax", fcut]
+    win = ["--fmin", "%.4f" % su.fscale, "--fmax", fcut]
     consumers = [("mesh", [], []), ("dos", ["--dos"], win), ("pdos", ["--pdos", "1, 2"], win),
                  ("tprop", ["-t"] + T, ["--cutoff-freq", fcut]), ("ptprop", ["--pt"] + T, ["--cutoff-freq", fcut]),
                  ("tdisp", ["--td"] + T, win), ("tdm", ["--tdm"] + T, win), ("tdm_cif", ["--tdm-cif", "150"], win),
@@ -1686,10 +1696,12 @@ def workflow_level(ctx):
         res = ctx.tlc("MC_CLIWorkflowTrace", cfg_text=CFG_WFT, extra_files={"MC_CLIWorkflowTrace.tla": mc},
                       requirement=False, extra_args=("-continue",), workers=2, env=JENV)
         byid = {j["id"]: j for j in jobs}
+        vacuous = False
+        nviol = len(ctx.violations)
         for name, tr in res.violations:
-            if name == "CellsExercised":  # vacuity of the (mesh consumer x modifier) coverage: machinery failure
-                raise tlcmod.MachineryError("CLIWorkflowTrace: some (mesh consumer, mesh modifier) cell is not exercised "
-                                            "by a compared run: %s" % missing_cells(events))
+            if name == "CellsExercised":  # vacuity of the (mesh consumer x modifier) coverage
+                vacuous = True
+                continue
             eid = tr[-1][1].get("wev", {}).get("id") if tr else None
             if eid is None:
                 raise tlcmod.MachineryError("violation of %s without a parsable trace" % name)
@@ -1705,6 +1717,10 @@ def workflow_level(ctx):
                               "C18 %s: %s fails for the real command" % (eid, name), _pubjob(j))
             else:
                 ctx.violation("tlc:CLIWorkflowTrace:" + name, "TLC: %s violated" % name, _pubjob(j))
+        if vacuous and len(ctx.violations) == nviol and not ctx.known_hits:
+            # a cell that is not exercised although nothing failed: the machinery is vacuous there
+            raise tlcmod.MachineryError("CLIWorkflowTrace: some (mesh consumer, mesh modifier) cell is not exercised "
+                                        "by a compared run: %s" % missing_cells(events))
     finally:
         for su in setups:
             su.cleanup()
